@@ -26,7 +26,16 @@ def gen_case(chk, i):
     # several looms may live on one host (same hostname = name up to the first
     # dot): the offset of a host applies to all of them
     nhosts = rng.randint(1, nlooms)
-    hostoff = [0 if (h == 0 and rng.random() < 0.5) else rng.randint(-400000, 400000) for h in range(nhosts)]
+    # node clocks a few hundred microseconds apart, or (boot-time clocks) seconds, hours or months apart: the
+    # table brings them together, so whatever the raw distance the corrected clocks are what counts
+    def host_offset(h):
+        if h == 0 and rng.random() < 0.5:
+            return 0
+        if rng.random() < 0.3:
+            return -rng.choice([2 ** 32 + 5, 3600 * 10 ** 9 - 7, 3600 * 10 ** 9 + 10 ** 6, 37 * 10 ** 11,
+                                86400 * 10 ** 9, 9 * 10 ** 15]) - rng.randint(0, 1000)
+        return rng.randint(-400000, 400000)
+    hostoff = [host_offset(h) for h in range(nhosts)]
     looms = []
     # host names: plain, or (one case in three) a family in which one name is a prefix
     # of the next (node1, node10, node100), the shortest being the reference node
